@@ -27,6 +27,9 @@ from ..filters import ContentFilter
 
 # Real Unix newline - \n without \r before it
 _UNIX_NL_RE = re.compile(rb"(?<!\r)\n")
+# The \r\n sequences _to_crlf_converter produces from a real Unix newline -
+# \r\n without another \r before it
+_LONE_CRLF_RE = re.compile(rb"(?<!\r)\r\n")
 
 
 def _to_lf_converter(chunks, context=None):
@@ -47,17 +50,39 @@ def _to_crlf_converter(chunks, context=None):
         return [_UNIX_NL_RE.sub(b"\r\n", content)]
 
 
+def _crlf_in_repo_to_lf_converter(chunks, context=None):
+    r"""A content file that converts crlf to lf, undoing _to_crlf_converter.
+
+    _to_crlf_converter leaves a \n that already follows a \r alone, so
+    \r\r\n is valid canonical content when crlf is kept in the repository.
+    Only a \r\n without another \r before it is converted here; converting
+    \r\r\n to \r\n as well would make it read back as \r\n, so that a
+    fresh checkout looks modified.
+    """
+    content = b"".join(chunks)
+    if b"\x00" in content:
+        return [content]
+    else:
+        return [_LONE_CRLF_RE.sub(b"\n", content)]
+
+
 if sys.platform == "win32":
     _native_output = _to_crlf_converter
+    _native_output_crlf_in_repo = _to_crlf_converter
 else:
     _native_output = _to_lf_converter
+    _native_output_crlf_in_repo = _crlf_in_repo_to_lf_converter
 _eol_filter_stack_map = {
     "exact": [],
     "native": [ContentFilter(_to_lf_converter, _native_output)],
     "lf": [ContentFilter(_to_lf_converter, _to_lf_converter)],
     "crlf": [ContentFilter(_to_lf_converter, _to_crlf_converter)],
-    "native-with-crlf-in-repo": [ContentFilter(_to_crlf_converter, _native_output)],
-    "lf-with-crlf-in-repo": [ContentFilter(_to_crlf_converter, _to_lf_converter)],
+    "native-with-crlf-in-repo": [
+        ContentFilter(_to_crlf_converter, _native_output_crlf_in_repo)
+    ],
+    "lf-with-crlf-in-repo": [
+        ContentFilter(_to_crlf_converter, _crlf_in_repo_to_lf_converter)
+    ],
     "crlf-with-crlf-in-repo": [ContentFilter(_to_crlf_converter, _to_crlf_converter)],
 }
 
